@@ -29,6 +29,13 @@ def run_decoder(ctx, x, compatible=False, attribute=False):
     except DecoderError as ex:
         return ("DecoderError", ex)
     except Exception as ex:  # noqa: any other exception type is an observation, not an engine signal
+        if isinstance(x, TokStr):
+            # an exception other than DecoderError on a token-list input is re-examined on the plain string: either the
+            # decoder no longer takes its input apart with selfies.split(".") + per-fragment token lists (which the M-TOK
+            # model relies on; then every symbol is pinned: more paths, same semantics), or the exception is real and
+            # shows again on the string
+            s = x.as_plain_str()
+            return run_decoder(ctx, s, compatible=compatible, attribute=attribute)
         return ("exc", ex)
 
 
